@@ -80,7 +80,7 @@ def cfg_const(cfg_text, name, default=None):
     return int(m.group(1)) if m else default
 
 
-def mc_job(name, module, cfgs, props, export=True, cap_q=700, cap_t=20000, workers=12, timeout_q=300, timeout_t=3000):
+def mc_job(name, module, cfgs, props, export=True, strict=True, cap_q=700, cap_t=20000, workers=12, timeout_q=300, timeout_t=3000):
     """Model-check MC configs (quick: cfgs['quick'], thorough: cfgs['thorough']) and export the paths as schedules."""
     def job(tier, wd, rng):
         out = []
@@ -101,13 +101,16 @@ def mc_job(name, module, cfgs, props, export=True, cap_q=700, cap_t=20000, worke
                 for i, p in enumerate(paths):
                     steps = [dict(st, hex=hostile_hex(st["p"])) if st["a"] == "hostile" else st for st in p["steps"]]
                     nr = sum(1 for st in steps if st["a"] == "round")
-                    if not any(st["a"] == "heal" for st in steps):
-                        steps.append({"a": "heal", "conn": 1, "bound": bound, "lose": rng.random() < 0.5})
-                    if nr < rounds:
-                        steps.append({"a": "round", "conn": 1, "dt": dt, "n": rounds - nr})
+                    if module == "MC_Conn":
+                        if not any(st["a"] == "heal" for st in steps):
+                            steps.append({"a": "heal", "conn": 1, "bound": bound, "lose": rng.random() < 0.5})
+                        if nr < rounds:
+                            steps.append({"a": "round", "conn": 1, "dt": dt, "n": rounds - nr})
+                    elif module == "MC_Server" and not any(st["a"] == "heal" for st in steps):
+                        steps += [{"a": "get_event"}] * 4
                     cfg = dict(mcfg)
                     cfg["props"] = props
-                    res["schedules"].append({"id": "%s-%d" % (cfgf, i), "cfg": cfg, "steps": steps, "model": True})
+                    res["schedules"].append({"id": "%s-%d" % (cfgf, i), "cfg": cfg, "steps": steps, "model": True, "strict": strict})
                 res["paths_replayed"] = len(res["schedules"])
             res.pop("text", None) if not res.get("violated") else None
             out.append(res)
@@ -125,7 +128,7 @@ def run_batch(plan, pid, name, scheds, wd, idx):
     hres = C.rvh([plan.world, sp, tp])
     flags, cov, states, dt = C.tlc_trace(plan.monitor, tp, wd)
     strict = None
-    if name.startswith("model:") and plan.world == "msg":
+    if name.startswith("model:") and plan.world == "msg" and ":MC_C" in name and "MC_Server" not in name and scheds and scheds[0].get("strict", True):
         strict = C.tlc_strict(scheds[0]["cfg"], tp, wd)
     return {"sched_path": sp, "trace_path": tp, "harness": hres, "flags": flags, "cov": cov, "states": states, "tlc_s": dt, "strict": strict}
 
@@ -383,6 +386,10 @@ def g_sizes(rng, tier, props):
     return GM.size_schedules(rng, props, n_of(tier, 60, 800), tier != "quick")
 
 
+def g_api(rng, tier, props):
+    return GM.api_schedules(rng, props, n_of(tier, 1500, 20000))
+
+
 def g_random_mem(rng, tier, props):
     """C09: duplicates of slices after consumption with older ids missing, tight budgets, stale unreliable fragments, long runs."""
     out = []
@@ -440,6 +447,13 @@ PLANS = {
                 mc=[mc_job("conn_mem", "MC_Conn", {"quick": ["MC_C09_q1.cfg", "MC_C09_q2.cfg", "MC_C09_q3.cfg"],
                                                     "thorough": ["MC_C09_q1.cfg", "MC_C09_q2.cfg", "MC_C09_q3.cfg", "MC_C09_t1.cfg"]}, ["C09"])],
                 level="model_checking", assumptions=MSG_ASSUME),
+    "C12": Plan("msg", "TraceRenetMon", ["C12"], [("api", g_api)],
+                mc=[mc_job("server_api", "MC_Server", {"quick": ["MC_C12_q1.cfg"], "thorough": ["MC_C12_q1.cfg"]}, ["C12"], strict=False,
+                           cap_q=4000, cap_t=60000)],
+                level="model_checking", assumptions=MSG_ASSUME,
+                rule="sequences of public API calls of RenetServer / RenetClient (table, status, traffic, undecodable packets, local clients): "
+                     "every model state of the depth-5 call graph over two ids + seeded-random sequences up to 25 calls; all are non-trivial "
+                     "(each contains at least one call that can disconnect)"),
     "C13": Plan("msg", "TraceRenetMon", ["C13"], [("sizes", g_sizes), ("random_mixed", g_random_mixed)],
                 mc=[mc_job("conn_sizes", "MC_Conn", {"quick": ["MC_C13_q1.cfg", "MC_C13_q2.cfg"], "thorough": ["MC_C13_q1.cfg", "MC_C13_q2.cfg"]}, ["C13"])],
                 level="model_checking", assumptions=MSG_ASSUME),
